@@ -552,15 +552,24 @@ def tlc_accept(module, cfg, events, rundir, tag, nchunks=None, env=None, heap="3
     n = len(events)
     if n == 0:
         raise InfraError("empty trace for " + tag)
-    nchunks = nchunks or max(1, min(NCPU, n // 400))
-    per = (n + nchunks - 1) // nchunks
-    parts = [events[i:i + per] for i in range(0, n, per)]
+    lines = [json.dumps(e, separators=(",", ":")) for e in events]
+    total = sum(len(x) for x in lines)
+    nchunks = nchunks or max(1, min(NCPU, max(n // 400, total // 4000000)))
+    # balance by size (the acceptor's cost per event grows with it): largest first, to the lightest chunk
+    parts, plines, load = [[] for _ in range(nchunks)], [[] for _ in range(nchunks)], [0] * nchunks
+    for k in sorted(range(n), key=lambda k: -len(lines[k])):
+        c = load.index(min(load))
+        parts[c].append(events[k])
+        plines[c].append(lines[k])
+        load[c] += len(lines[k]) + 200
+    keep = [c for c in range(nchunks) if parts[c]]
+    parts, plines = [parts[c] for c in keep], [plines[c] for c in keep]
 
     def one(i):
         tp = os.path.join(rundir, "%s.trace.%d.ndjson" % (tag, i))
         with open(tp, "w") as fh:
-            for e in parts[i]:
-                fh.write(json.dumps(e, separators=(",", ":")) + "\n")
+            for ln in plines[i]:
+                fh.write(ln + "\n")
         d = os.path.join(rundir, "%s.tlc.%d" % (tag, i))
         os.makedirs(d, exist_ok=True)
         e2 = dict(env or {})
